@@ -30,7 +30,11 @@ for path in sorted(glob.glob(os.path.join(HERE, 'seeded', '*', 'meta.json'))):
     if rec and not rec.get('still_breaks'):
         # a later fix: commit in /repo removed the mechanism this change relied on: it no longer breaks the property on the current base
         meta[tier] = 'n/a'
-        meta['caught_by'] = 'no longer property-breaking on base %s (its own demonstration holds with the patch applied)' % rec.get('head')
+        if rec.get('demo_exit_clean_tree'):
+            meta['caught_by'] = ('no longer property-breaking on base %s (a later fix: commit closed the path it needed; its demonstration expected the '
+                                 'pre-fix reaction and now differs on the clean tree too)' % rec.get('head'))
+        else:
+            meta['caught_by'] = 'no longer property-breaking on base %s (its own demonstration holds with the patch applied)' % rec.get('head')
         json.dump(meta, open(path, 'w'), indent=1)
         print(sid, tier, 'n/a (harmless on current base)', flush=True)
         continue
